@@ -1,6 +1,189 @@
+(** C09 — property theorems only.  Each is closed by [exact] of a lemma proved in Proofs*.v and
+    followed by [Print Assumptions].
+
+    Reading guide.  [apply_transaction64] is ApplyTransaction (AsMessage, preCheck, buyGas,
+    IntrinsicGas, Call / Create, refundGas, fee, Finalise) with uint64 wrap-around as in the
+    code; [commit_block64] is commitBlock's transaction loop.  The byte-code interpreter is the
+    parameter [run]; [ExecOK run] is the contract assumed of it (gas left <= gas given; net
+    balance moves sum to minus the self-destruct burn; the transaction origin is an externally
+    owned account).  [wf_msg]: gas and nonce are uint64 values, the nonce is not 2^64-1, price
+    and value are non-negative.  A state "at a transaction boundary" has refund counter 0 and no
+    account marked suicided (what Finalise leaves).  [U] is any duplicate-free list of accounts
+    containing every account involved ([Closed U run]: every account the interpreter writes). *)
 From Coq Require Import List ZArith NArith Bool.
-From Kardia Require Import Base.Int64 C09.Model Generated.C09Facts.
+From Kardia Require Import Base.Int64 C09.Model C09.ProofsBase C09.ProofsVM C09.ProofsTx
+  C09.ProofsWrap C09.ProofsExamples Generated.C09Facts.
+Import ListNotations.
 Local Open Scope Z_scope.
-Theorem C09_placeholder : refund_quotient = 2.
-Proof. reflexivity. Qed.
-Print Assumptions C09_placeholder.
+
+(** Executing a transaction changes the balance sum by exactly minus what self-destructs
+    destroyed: gas*price leaves the sender, (gas-used)*price comes back, used*price goes to the
+    proposer, the value goes to the recipient / created contract, the interpreter only moves. *)
+Theorem C09_conservation :
+  forall run ca, ExecOK run ->
+  forall e s pool m s' pool' r,
+    wf_msg m -> 0 <= pool < two64 -> st_refund s = 0 -> st_dead s = [] ->
+    apply_transaction64 run ca e s pool m = Executed s' pool' r ->
+    forall U, NoDup U -> Closed U run ->
+    In (m_from m) U -> In (target ca s m) U -> In (e_coinbase e) U ->
+    total U s' = total U s - x_burnt r.
+Proof. exact executed_conservation. Qed.
+Print Assumptions C09_conservation.
+
+(** gas used <= gas limit; the refund is at most half of the gas used before the refund
+    (hence at most the gas finally used); used + refund = limit - gas returned by the VM;
+    the VM got at most the limit and returned at most what it got *)
+Theorem C09_gas_bounds :
+  forall run ca, ExecOK run ->
+  forall e s pool m s' pool' r,
+    wf_msg m -> 0 <= pool < two64 -> st_refund s = 0 ->
+    apply_transaction64 run ca e s pool m = Executed s' pool' r ->
+    0 <= x_used r <= m_gas m /\
+    0 <= x_refund r /\ 2 * x_refund r <= x_used r + x_refund r /\
+    x_used r + x_refund r = m_gas m - x_vmleft r /\
+    0 <= x_vmleft r <= x_vmgas r /\ x_vmgas r <= m_gas m.
+Proof. exact executed_gas_bounds. Qed.
+Print Assumptions C09_gas_bounds.
+
+(** who pays and who receives the gas money: relative to the state [s2] the Call / Create left,
+    the sender gets (limit - used)*price back — having paid limit*price up front, it pays
+    used*price net — and the proposer gets used*price; accounts that self-destructed are deleted *)
+Theorem C09_fee_flow :
+  forall run ca, ExecOK run ->
+  forall e s pool m s' pool' r,
+    wf_msg m -> 0 <= pool < two64 -> st_refund s = 0 ->
+    apply_transaction64 run ca e s pool m = Executed s' pool' r ->
+    exists ig s2 gas2 vmerr burn,
+      let from := m_from m in
+      let s1 := sub_bal s from (m_gas m * m_price m) in
+      vm_phase wrapu64 run ca s1 m (m_gas m - ig) = (s2, gas2, vmerr, burn) /\
+      x_vmerr r = vmerr /\ x_failed r = negb (vm_err_eqb vmerr VOk) /\
+      (forall a, ~ In a (st_dead s2) ->
+         bal s' a = bal s2 a + (if N.eqb a from then (m_gas m - x_used r) * m_price m else 0)
+                             + (if N.eqb a (e_coinbase e) then x_used r * m_price m else 0)) /\
+      (forall a, In a (st_dead s2) -> get s' a = empty_account).
+Proof. exact executed_fee_flow. Qed.
+Print Assumptions C09_fee_flow.
+
+(** a plain value transfer, account by account: the sender pays value + used*price, the
+    recipient receives the value, the proposer receives used*price, used = intrinsic gas *)
+Theorem C09_plain_transfer :
+  forall run ca, ExecOK run ->
+  forall e s pool m t s' pool' r,
+    wf_msg m -> 0 <= pool < two64 -> st_refund s = 0 -> st_dead s = [] ->
+    m_to m = Some t -> code s t = 0%N -> is_precompile t = false ->
+    apply_transaction64 run ca e s pool m = Executed s' pool' r ->
+    exists ig, intrinsic_gas64 (m_data m) false (negb (e_galaxias e)) = Some ig /\
+      x_used r = ig /\ x_failed r = false /\ x_refund r = 0 /\ x_burnt r = 0 /\ pool' = pool - ig /\
+      forall a, bal s' a = bal s a
+                           - (if N.eqb a (m_from m) then m_value m + ig * m_price m else 0)
+                           + (if N.eqb a t then m_value m else 0)
+                           + (if N.eqb a (e_coinbase e) then ig * m_price m else 0).
+Proof. exact plain_transfer_exact. Qed.
+Print Assumptions C09_plain_transfer.
+
+(** the block gas pool decreases by exactly the gas used *)
+Theorem C09_pool_exact :
+  forall run ca, ExecOK run ->
+  forall e s pool m s' pool' r,
+    wf_msg m -> 0 <= pool < two64 -> st_refund s = 0 ->
+    apply_transaction64 run ca e s pool m = Executed s' pool' r ->
+    pool' = pool - x_used r /\ 0 <= pool' < two64.
+Proof. exact executed_pool. Qed.
+Print Assumptions C09_pool_exact.
+
+(** the sender's nonce is the transaction's nonce and increases by exactly one, on the call
+    path (SetNonce in TransitionDb) and on the creation path (SetNonce in KVM.create) alike,
+    whether or not the VM call failed *)
+Theorem C09_nonce :
+  forall run ca, ExecOK run ->
+  forall e s pool m s' pool' r,
+    wf_msg m -> 0 <= pool < two64 -> st_refund s = 0 -> st_dead s = [] ->
+    apply_transaction64 run ca e s pool m = Executed s' pool' r ->
+    nonce s' (m_from m) = nonce s (m_from m) + 1 /\ nonce s (m_from m) = m_nonce m.
+Proof. exact executed_nonce. Qed.
+Print Assumptions C09_nonce.
+
+(** a transaction that ApplyTransaction rejects (whatever state and pool it left behind) is, for
+    the block, as if it had not been there: same accounts, same pool, same cumulative gas, same
+    receipts after everything that follows.  No hypothesis on the interpreter. *)
+Theorem C09_rejected_neutral :
+  forall run ca e s txs1 bad txs2,
+    (exists er sx px,
+       apply_transaction64 run ca e (b_state (commit_block64 run ca e s txs1))
+         (b_pool (commit_block64 run ca e s txs1)) bad = Rejected er sx px) ->
+    commit_block64 run ca e s (txs1 ++ bad :: txs2) = commit_block64 run ca e s (txs1 ++ txs2).
+Proof. intros run ca e s. exact (rejected_neutral run ca wrapu64 e (block_start e s)). Qed.
+Print Assumptions C09_rejected_neutral.
+
+(** ... and these are the reasons for which a transaction is rejected *)
+Theorem C09_rejected_reason :
+  forall run ca e s pool m er sx px,
+    apply_transaction64 run ca e s pool m = Rejected er sx px ->
+    match er with
+    | ESig => m_sigok m = false
+    | ENonceHigh => nonce s (m_from m) < m_nonce m
+    | ENonceLow => m_nonce m < nonce s (m_from m)
+    | EFunds => bal s (m_from m) < m_gas m * m_price m
+    | EGasLimit => pool < m_gas m
+    | EGasOverflow => intrinsic_gas64 (m_data m) (creation m) (negb (e_galaxias e)) = None
+    | EIntrinsic => exists ig, intrinsic_gas64 (m_data m) (creation m) (negb (e_galaxias e)) = Some ig
+                               /\ wrapu64 (0 + m_gas m) < ig
+    | EFundsTransfer => bal s (m_from m) - m_gas m * m_price m < m_value m
+    end.
+Proof. exact rejected_reason. Qed.
+Print Assumptions C09_rejected_reason.
+
+(** whole blocks: AddGas never panics, pool + gas used = block gas limit, the state is again at
+    a transaction boundary, and the balance sum moved by the recorded burns only *)
+Theorem C09_block :
+  forall run ca, ExecOK run ->
+  forall e U s txs,
+    0 <= e_gaslimit e < two64 -> NoDup U -> Closed U run -> In (e_coinbase e) U ->
+    st_refund s = 0 -> st_dead s = [] ->
+    (forall m, In m txs -> wf_msg m /\ In (m_from m) U /\ forall s, In (target ca s m) U) ->
+    block_inv e U s (commit_block64 run ca e s txs).
+Proof.
+  intros run ca OK e U s txs Hgl Hnd Hcl Hc Hr Hd Hall.
+  exact (commit_txs_inv run ca OK e U s txs (block_start e s) Hgl Hnd Hcl Hc Hall
+           (block_start_inv e U s (proj1 Hgl) Hr Hd)).
+Qed.
+Print Assumptions C09_block.
+
+(** no uint64 operation wraps: on well-formed messages (data shorter than 2^32 bytes) the code's
+    arithmetic agrees with unbounded integers, the overflow checks of IntrinsicGas do not fire,
+    and GasPool.AddGas does not panic *)
+Theorem C09_no_wrap :
+  forall run ca, ExecOK run ->
+  forall e s pool m,
+    wf_msg m -> data_ok (m_data m) -> 0 <= pool < two64 -> 0 <= st_refund s ->
+    apply_transaction64 run ca e s pool m = apply_transaction (fun z => z) run ca e s pool m
+    /\ apply_transaction64 run ca e s pool m <> Panicked.
+Proof. exact apply_transaction_eq. Qed.
+Print Assumptions C09_no_wrap.
+
+Theorem C09_intrinsic_no_overflow :
+  forall data c l, data_ok data ->
+    intrinsic_gas64 data c l = intrinsic_gas (fun z => z) data c l /\
+    exists ig, intrinsic_gas64 data c l = Some ig.
+Proof.
+  intros data c l H. split; [exact (intrinsic_eq data c l H)|].
+  destruct (intrinsic_some data c l H) as [ig Hig]. exists ig.
+  unfold intrinsic_gas64. rewrite (intrinsic_eq data c l H). exact Hig.
+Qed.
+Print Assumptions C09_intrinsic_no_overflow.
+
+(** the hypotheses are satisfiable *)
+Theorem C09_hypotheses_satisfiable :
+  ExecOK run_ex /\ wf_msg msg_ex /\
+  match apply_transaction64 run_ex ca_ex env_ex st_ex 100000 msg_ex with
+  | Executed s' pool' r => x_used r = 21172 /\ pool' = 100000 - 21172 /\ nonce s' 1%N = 6
+  | _ => False
+  end.
+Proof.
+  split; [exact run_ex_ok|]. split; [exact msg_ex_wf|].
+  pose proof ex_executed as H.
+  destruct (apply_transaction64 run_ex ca_ex env_ex st_ex 100000 msg_ex); try exact H.
+  destruct H as (H1 & H2 & _ & H3 & _). repeat split; assumption.
+Qed.
+Print Assumptions C09_hypotheses_satisfiable.
